@@ -7,7 +7,8 @@ CONSTANTS RelPids, UnrelPids,  \* inbound packet IDs that are reliable / unrelia
           MaxRcv,              \* each inbound packet arrives at most this often (duplication)
           MaxSends, MaxUnrel,  \* reliable / unreliable sends of the application
           MaxAcks,             \* acknowledgements carried by one inbound packet
-          Ticks,               \* clock steps
+          Ticks,               \* clock steps followed by the circuit's own resend pass (Circuit.resend_unacked)
+          LoopTicks,           \* clock steps followed by one iteration of the client's resend loop
           MaxSubs, SubKinds,   \* further subscribers per level, and their kinds
           MaxPings, Oldest,    \* StartPingChecks of the peer, and what they may announce
           StartStates,         \* how the circuit starts: {"pending"} (client endpoint), {"alive"} (bare Circuit) or both
@@ -45,6 +46,7 @@ Next == \/ \E p \in RelPids, acks \in AckSets : RecvRel(p, acks)
         \/ DoSendRel
         \/ DoSendUnrel
         \/ \E d \in Ticks : Tick(d)
+        \/ \E d \in LoopTicks : LoopTick(d)
 MCInit == \E a \in StartStates : InitWith(a)
 Spec == MCInit /\ [][Next]_vars
 ====
